@@ -579,6 +579,9 @@ def _astype(dom, args, kw):
 def _atleast_1d(dom, args, kw):
     a = args[0]
     if isinstance(a, Arr):
+        c0 = dom.run.heap[a.ref]
+        if isinstance(c0, ND) and c0.ndim == 0 and kw.get("_name") != "asarray":
+            return dom.run.alloc(ND((1,), list(c0.flat)))
         return a                        # numpy returns the argument itself when it is already an ndarray
     if isinstance(a, (Sym, int, float)):
         if real_mode(dom):
